@@ -403,6 +403,8 @@ def slist_append(sl, v):
 def _ite_val(c, a, b):
     if isinstance(c, bool):
         return a if c else b
+    if hasattr(a, 'ite_with'):
+        return a.ite_with(c, b)
     if isinstance(a, Opaque) and isinstance(b, Opaque) and a.kind == b.kind:
         return Opaque(a.kind, Ite(c, a.id, b.id))
     if isinstance(a, NodeV) and isinstance(b, NodeV):
